@@ -328,15 +328,31 @@ impl<'p> ThunkData<'p> {
         let mut state = self.state.borrow_mut();
         match *state {
             ThunkState::Done(ref value) => ThunkState::Done(value.clone()),
-            ThunkState::Pending(_) => std::mem::replace(&mut *state, ThunkState::InProgress),
-            ThunkState::InProgress => ThunkState::InProgress,
+            ThunkState::Pending(ref pending) => {
+                let in_progress = ThunkState::InProgress(pending.clone());
+                std::mem::replace(&mut *state, in_progress)
+            }
+            ThunkState::InProgress(ref pending) => ThunkState::InProgress(pending.clone()),
+        }
+    }
+
+    /// Makes an in-progress thunk pending again.
+    ///
+    /// Used when the evaluation of the thunk is aborted by an error, so
+    /// that a later evaluation starts over instead of finding a stale
+    /// in-progress state (and reporting infinite recursion).
+    pub(super) fn restore_pending(&self) {
+        let mut state = self.state.borrow_mut();
+        if let ThunkState::InProgress(ref pending) = *state {
+            let pending = ThunkState::Pending(pending.clone());
+            *state = pending;
         }
     }
 
     #[inline]
     pub(super) fn set_done(&self, value: ValueData<'p>) {
         let mut state = self.state.borrow_mut();
-        assert!(matches!(*state, ThunkState::InProgress));
+        assert!(matches!(*state, ThunkState::InProgress(_)));
         *state = ThunkState::Done(value);
     }
 
@@ -352,7 +368,9 @@ impl<'p> ThunkData<'p> {
 pub(super) enum ThunkState<'p> {
     Done(ValueData<'p>),
     Pending(PendingThunk<'p>),
-    InProgress,
+    // Keeps the pending data, so the thunk can become pending
+    // again if its evaluation is aborted by an error.
+    InProgress(PendingThunk<'p>),
 }
 
 impl GcTrace for ThunkState<'_> {
@@ -362,12 +380,12 @@ impl GcTrace for ThunkState<'_> {
     {
         match self {
             Self::Done(value) => value.trace(ctx),
-            Self::Pending(pending) => pending.trace(ctx),
-            Self::InProgress => {}
+            Self::Pending(pending) | Self::InProgress(pending) => pending.trace(ctx),
         }
     }
 }
 
+#[derive(Clone)]
 pub(super) enum PendingThunk<'p> {
     Expr {
         expr: &'p ir::Expr<'p>,
